@@ -46,7 +46,7 @@ fn verif_c15_dispatch() {
     let prefixes = strings_upto(&alpha, if tier_thorough() { 3 } else { 2 });
     let mut r = Report::new(
         "c15_dispatch",
-        &format!("all {} keys of <= 3 symbols over {{a,b,é,🦀}} x (every single prefix of <= {} symbols, plus 40 prefix sets of size 2..8 with one dropped handle and one forever handle); expected calls computed with str::strip_prefix", keys.len(), if tier_thorough() { 3 } else { 2 }),
+        &format!("all {} keys of <= 3 symbols over {{a,b,é,🦀}} x (every single prefix of <= {} symbols, plus 40 prefix sets of size 2..8 with one dropped handle and one forever handle; plus every order of up to 5 (thorough 6) subscribe / drop / forever operations over the prefixes 'a' and ''); expected calls computed with str::strip_prefix", keys.len(), if tier_thorough() { 3 } else { 2 }),
         true,
     );
     let node = ChitchatId::for_local_test(7);
@@ -140,6 +140,89 @@ fn verif_c15_dispatch() {
             if got != want {
                 r.fail("wrong-calls-set", format!("got {:?}, expected {:?}", got, want), case);
             }
+        }
+    }
+    // ---- subscribe / drop / forever orders on shared prefixes
+    #[derive(Clone, Copy, Debug)]
+    enum LOp {
+        Sub(u8),
+        Drop(u8),
+        Forever(u8),
+    }
+    let lops: Vec<LOp> = vec![LOp::Sub(0), LOp::Sub(1), LOp::Drop(0), LOp::Drop(1), LOp::Drop(2), LOp::Forever(0), LOp::Forever(1)];
+    let pfx = ["a", ""];
+    let maxlen = if tier_thorough() { 6 } else { 5 };
+    let mut idx: Vec<usize> = vec![0];
+    loop {
+        let seq: Vec<LOp> = idx.iter().map(|i| lops[*i]).collect();
+        let case = format!("ops={:?} (Sub(i): subscribe prefix {:?}[i]; Drop(j)/Forever(j): j-th handle created) key=\"ab\"", seq, pfx);
+        let skip = replay_case().map(|rc| rc != case).unwrap_or(false);
+        if !skip {
+            r.evaluations += 1;
+            let mut listeners = Listeners::default();
+            let log: Log = Arc::new(Mutex::new(Vec::new()));
+            let mut handles: Vec<Option<ListenerHandle>> = Vec::new();
+            let mut active: Vec<(usize, usize)> = Vec::new(); // (subscription number, prefix index)
+            let mut created = 0usize;
+            for op in &seq {
+                match *op {
+                    LOp::Sub(p) => {
+                        handles.push(Some(subscribe(&listeners, created, pfx[p as usize], &log)));
+                        active.push((created, p as usize));
+                        created += 1;
+                    }
+                    LOp::Drop(j) => {
+                        if let Some(h) = handles.get_mut(j as usize) {
+                            if h.take().is_some() {
+                                active.retain(|(n, _)| *n != j as usize);
+                            }
+                        }
+                    }
+                    LOp::Forever(j) => {
+                        if let Some(h) = handles.get_mut(j as usize) {
+                            if let Some(hh) = h.take() {
+                                hh.forever();
+                            }
+                        }
+                    }
+                }
+            }
+            let ev = KeyChangeEvent { key: "ab", value: "v", node: &node };
+            if let Err(pn) = no_panic(|| listeners.trigger_event(ev)) {
+                r.fail("panic-orders", format!("trigger_event panicked: {pn}"), case.clone());
+            } else {
+                let mut got = log.lock().unwrap().clone();
+                got.sort();
+                let mut want: Vec<(usize, String, String)> = active
+                    .iter()
+                    .map(|(n, p)| (*n, "ab".strip_prefix(pfx[*p]).unwrap().to_string(), "v".to_string()))
+                    .collect();
+                want.sort();
+                if !want.is_empty() {
+                    r.nontrivial += 1;
+                }
+                if got != want {
+                    r.fail("wrong-calls-orders", format!("got {:?}, expected {:?}", got, want), case.clone());
+                }
+            }
+            // keep the forever / remaining handles alive until after the trigger
+            drop(handles);
+        }
+        // next sequence
+        if idx.len() < maxlen {
+            idx.push(0);
+            continue;
+        }
+        let mut done = true;
+        while let Some(last) = idx.pop() {
+            if last + 1 < lops.len() {
+                idx.push(last + 1);
+                done = false;
+                break;
+            }
+        }
+        if done {
+            break;
         }
     }
     r.emit();
